@@ -57,6 +57,7 @@ var (
 
 // Reset prepares a native replay run.
 func Reset() {
+	ResetSchedule()
 	occ = map[string]int{}
 	Failed, Reached, Missing, Trace = nil, nil, nil, nil
 	loaded = false
